@@ -304,38 +304,77 @@ Qed.
 Definition closed_upto (defs : list (string * jdef)) (extra : list string) : Prop :=
   forall k d r, In (k, d) defs -> In r (schema_refs (fst d)) -> In r (map fst defs) \/ In r extra.
 
-Lemma foreign_loop_closed : forall ctx s fuel defs pending defs',
+Lemma str_in_In_p : forall k l, str_in k l = true <-> In k l.
+Proof.
+  induction l as [|x r IH]; simpl; split; intros H; try discriminate; try contradiction.
+  - apply orb_true_iff in H. destruct H as [H|H]; [left; apply String.eqb_eq; exact H | right; apply IH; exact H].
+  - apply orb_true_iff. destruct H as [H|H]; [left; apply String.eqb_eq; exact H | right; apply IH; exact H].
+Qed.
+
+Lemma not_converted_in : forall visited pending ko,
+    In ko (not_converted visited pending) <-> In ko pending /\ ~ In (fst ko) visited.
+Proof.
+  intros. unfold not_converted. rewrite filter_In. split; intros [H1 H2]; split; auto.
+  - intro Hc. apply str_in_In_p in Hc. rewrite Hc in H2. discriminate.
+  - destruct (str_in (fst ko) visited) eqn:E; auto. apply str_in_In_p in E. contradiction.
+Qed.
+
+Lemma foreign_loop_step : forall ctx pkg f visited defs pd pr,
+    foreign_loop ctx pkg (S f) visited defs (pd :: pr) =
+    foreign_loop ctx pkg f (visited ++ map fst (not_converted visited (pd :: pr)))
+                 (set_definitions defs (map snd (not_converted visited (pd :: pr))))
+                 (collect_foreign ctx pkg (map snd (not_converted visited (pd :: pr)))).
+Proof. reflexivity. Qed.
+
+(* every converted SelfRef belongs to an object of the context whose name is a definition *)
+Definition visited_ok (ctx : schemas) (visited : list string) (defs : list (string * jdef)) : Prop :=
+  forall k, In k visited -> exists o', In o' (all_objects ctx) /\ self_key o' = k /\ In (o_name o') (map fst defs).
+
+Lemma foreign_loop_closed : forall ctx s fuel visited defs pending defs',
     ctx_wf ctx -> refs_located ctx s ->
     (forall n, In n (map o_name (objects_of s)) -> In n (map fst defs)) ->
     pending_ok ctx pending ->
+    visited_ok ctx visited defs ->
     closed_upto defs (names_of pending) ->
-    foreign_loop ctx (s_pkg s) fuel defs pending = Ok defs' ->
+    foreign_loop ctx (s_pkg s) fuel visited defs pending = Ok defs' ->
     closed_upto defs' [] /\ (forall n, In n (map o_name (objects_of s)) -> In n (map fst defs')).
 Proof.
-  intros ctx s fuel. induction fuel as [|f IH]; intros defs pending defs' W R Hloc Hok Hcl H.
+  intros ctx s fuel. induction fuel as [|f IH]; intros visited defs pending defs' W R Hloc Hok Hvis Hcl H.
   - destruct pending; simpl in H; [|discriminate]. inversion H; subst. split; auto.
   - destruct pending as [|pd pr] eqn:EP.
     + simpl in H. inversion H; subst. split; auto.
-    + rewrite <- EP in *. assert (Hstep : foreign_loop ctx (s_pkg s) (S f) defs pending =
-                    foreign_loop ctx (s_pkg s) f (set_definitions defs (map snd pending))
-                                 (collect_foreign ctx (s_pkg s) (map snd pending))).
-      { rewrite EP; reflexivity. }
-      rewrite Hstep in H. clear Hstep.
-      destruct (cf_fold_invariant ctx (s_pkg s) (flat_map (fun o => refs_of (o_type o)) (map snd pending)) [] W) as [I1 [_ I3]].
+    + rewrite foreign_loop_step in H. rewrite <- EP in *.
+      set (todo := not_converted visited pending) in *.
+      assert (Htodo : forall ko, In ko todo -> In ko pending /\ ~ In (fst ko) visited).
+      { intros ko Hk. apply not_converted_in; exact Hk. }
+      destruct (cf_fold_invariant ctx (s_pkg s) (flat_map (fun o => refs_of (o_type o)) (map snd todo)) [] W) as [I1 [_ I3]].
       { intros k o []. }
-      eapply IH; [exact W | exact R | | | | exact H].
+      eapply IH; [exact W | exact R | | | | | exact H].
       * intros n Hn. apply set_defs_keys. left; auto.
       * rewrite collect_foreign_unfold. exact I1.
+      * intros k Hk. apply in_app_or in Hk. destruct Hk as [Hk|Hk].
+        -- destruct (Hvis k Hk) as [o' [A [B C]]]. exists o'. repeat split; auto. apply set_defs_keys; auto.
+        -- apply in_map_iff in Hk. destruct Hk as [[k0 o0] [<- Hk0]]. simpl.
+           destruct (Htodo _ Hk0) as [Hp _]. destruct (Hok _ _ Hp) as [Hkey Hin].
+           exists o0. repeat split; auto. apply set_defs_keys. right.
+           apply in_map_iff. exists o0; split; auto. apply in_map_iff. exists (k0, o0); auto.
       * rewrite collect_foreign_unfold. intros k d r Hin Hr.
         apply set_defs_in in Hin. destruct Hin as [Hin|[o [Ho [-> ->]]]].
         -- destruct (Hcl _ _ _ Hin Hr) as [Hk|Hk].
            ++ left. apply set_defs_keys; auto.
-           ++ left. apply set_defs_keys. right. unfold names_of in Hk.
-              rewrite in_map_iff in Hk. destruct Hk as [ko [<- Hko]].
-              apply in_map_iff. exists (snd ko); split; auto. apply in_map; assumption.
+           ++ left. apply set_defs_keys. unfold names_of in Hk.
+              rewrite in_map_iff in Hk. destruct Hk as [[k0 o0] [<- Hko]]. simpl.
+              destruct (in_dec String.string_dec k0 visited) as [Hv|Hnv].
+              ** (* collected again but already converted: its name is a definition already *)
+                 left. destruct (Hvis k0 Hv) as [o' [A [B C]]].
+                 destruct (Hok _ _ Hko) as [Hkey Hin0].
+                 rewrite <- (wf_self ctx W o' o0 A Hin0); [exact C | congruence].
+              ** right. apply in_map_iff. exists o0; split; auto.
+                 apply in_map_iff. exists (k0, o0); split; auto.
+                 apply not_converted_in. split; auto.
         -- simpl in Hr. apply emit_refs in Hr. destruct Hr as [p Hp].
            assert (Hoin : In o (all_objects ctx)).
-           { apply in_map_iff in Ho. destruct Ho as [[k0 o0] [<- Hk0]]. eapply Hok; eauto. }
+           { apply in_map_iff in Ho. destruct Ho as [[k0 o0] [<- Hk0]]. destruct (Htodo _ Hk0) as [Hpd _]. eapply Hok; eauto. }
            destruct (R o p r Hoin Hp) as [R1 R2].
            destruct (String.string_dec p (s_pkg s)) as [->|Hne].
            ++ left. apply set_defs_keys. left. auto.
@@ -352,7 +391,7 @@ Theorem emit_schema_refs_resolve : forall ctx s fuel jd,
 Proof.
   intros ctx s fuel jd W Hs R Hentry H r Hr.
   unfold emit_schema in H.
-  destruct (foreign_loop ctx (s_pkg s) fuel (set_definitions [] (map snd (s_objects s)))
+  destruct (foreign_loop ctx (s_pkg s) fuel [] (set_definitions [] (map snd (s_objects s)))
                          (collect_foreign ctx (s_pkg s) (map snd (s_objects s)))) as [defs| | |] eqn:L; try discriminate.
   inversion H; subst jd; clear H.
   destruct (cf_fold_invariant ctx (s_pkg s) (flat_map (fun o => refs_of (o_type o)) (map snd (s_objects s))) [] W) as [I1 [_ I3]].
@@ -360,9 +399,10 @@ Proof.
   assert (Hall : forall o, In o (objects_of s) -> In o (all_objects ctx)).
   { intros o Ho. unfold all_objects. apply in_flat_map. exists s; auto. }
   assert (HC : closed_upto defs [] /\ (forall n, In n (map o_name (objects_of s)) -> In n (map fst defs))).
-  { eapply foreign_loop_closed; [exact W | exact R | | | | exact L].
+  { eapply foreign_loop_closed; [exact W | exact R | | | | | exact L].
     - intros n Hn. apply set_defs_keys. right; exact Hn.
     - rewrite collect_foreign_unfold. exact I1.
+    - intros k [].
     - rewrite collect_foreign_unfold. intros k d r0 Hin Hr0.
       apply set_defs_in in Hin. destruct Hin as [[]|[o [Ho [-> ->]]]].
       simpl in Hr0. apply emit_refs in Hr0. destruct Hr0 as [p Hp].
@@ -387,26 +427,23 @@ Qed.
 (* Every object of the schema is present under its own name, with its own definition     *)
 (* ====================================================================================== *)
 
-Lemma foreign_loop_keeps_local : forall ctx s fuel defs pending defs',
+Lemma foreign_loop_keeps_local : forall ctx s fuel visited defs pending defs',
     (forall os, (forall o, In o os -> ~ In (o_name o) (map o_name (objects_of s))) ->
                 forall k o, In (k, o) (collect_foreign ctx (s_pkg s) os) -> ~ In (o_name o) (map o_name (objects_of s))) ->
     (forall k o, In (k, o) pending -> ~ In (o_name o) (map o_name (objects_of s))) ->
-    foreign_loop ctx (s_pkg s) fuel defs pending = Ok defs' ->
+    foreign_loop ctx (s_pkg s) fuel visited defs pending = Ok defs' ->
     forall n, In n (map o_name (objects_of s)) -> om_get defs' n = om_get defs n.
 Proof.
-  intros ctx s fuel. induction fuel as [|f IH]; intros defs pending defs' Hcf Hp H n Hn.
+  intros ctx s fuel. induction fuel as [|f IH]; intros visited defs pending defs' Hcf Hp H n Hn.
   - destruct pending; simpl in H; [|discriminate]. inversion H; reflexivity.
   - destruct pending as [|pd pr] eqn:EP.
     + simpl in H. inversion H; reflexivity.
-    + rewrite <- EP in *.
-      assert (Hstep : foreign_loop ctx (s_pkg s) (S f) defs pending =
-                      foreign_loop ctx (s_pkg s) f (set_definitions defs (map snd pending))
-                                   (collect_foreign ctx (s_pkg s) (map snd pending))).
-      { rewrite EP; reflexivity. }
-      rewrite Hstep in H. clear Hstep.
-      assert (Hos : forall o, In o (map snd pending) -> ~ In (o_name o) (map o_name (objects_of s))).
-      { intros o Ho. apply in_map_iff in Ho. destruct Ho as [[k0 o0] [<- Hk0]]. eapply Hp; eauto. }
-      rewrite (IH _ _ _ Hcf (Hcf _ Hos) H n Hn).
+    + rewrite foreign_loop_step in H. rewrite <- EP in *.
+      set (todo := not_converted visited pending) in *.
+      assert (Hos : forall o, In o (map snd todo) -> ~ In (o_name o) (map o_name (objects_of s))).
+      { intros o Ho. apply in_map_iff in Ho. destruct Ho as [[k0 o0] [<- Hk0]].
+        apply not_converted_in in Hk0. destruct Hk0 as [Hk0 _]. eapply Hp; eauto. }
+      rewrite (IH _ _ _ _ Hcf (Hcf _ Hos) H n Hn).
       apply set_defs_get_other. intro Hc. apply in_map_iff in Hc. destruct Hc as [o [<- Ho]].
       exact (Hos o Ho Hn).
 Qed.
@@ -439,12 +476,12 @@ Theorem emit_schema_objects_present : forall ctx s fuel jd,
 Proof.
   intros ctx s fuel jd W Hs Hnd Hclash H o Ho.
   unfold emit_schema in H.
-  destruct (foreign_loop ctx (s_pkg s) fuel (set_definitions [] (map snd (s_objects s)))
+  destruct (foreign_loop ctx (s_pkg s) fuel [] (set_definitions [] (map snd (s_objects s)))
                          (collect_foreign ctx (s_pkg s) (map snd (s_objects s)))) as [defs| | |] eqn:L; try discriminate.
   inversion H; subst jd; clear H. simpl.
   assert (Hcf : forall os k o, In (k, o) (collect_foreign ctx (s_pkg s) os) -> ~ In (o_name o) (map o_name (objects_of s))).
   { intros os k o0 Hin. apply collect_foreign_located in Hin. destruct Hin as [p [n [Hne Hloc]]]. eapply Hclash; eauto. }
-  rewrite (foreign_loop_keeps_local ctx s fuel _ _ defs) with (3 := L).
+  rewrite (foreign_loop_keeps_local ctx s fuel [] _ _ defs) with (3 := L).
   - apply set_defs_get_own; auto.
   - intros os _ k o0 Hin. eapply Hcf; eauto.
   - intros k o0 Hin. eapply Hcf; eauto.
@@ -567,4 +604,105 @@ Lemma const_carried : forall a k v cs,
 Proof.
   intros a k v cs Hv Hk. simpl. unfold format_scalar.
   destruct k; try congruence; rewrite Hv; eexists; (split; [reflexivity | apply om_get_set_same]).
+Qed.
+
+(* ====================================================================================== *)
+(* The emitter returns: the loop over foreign objects converts every SelfRef at most once *)
+(* ====================================================================================== *)
+Lemma om_set_keys_nodup : forall V (l : list (string * V)) k v, NoDup (map fst l) -> NoDup (map fst (om_set l k v)).
+Proof.
+  induction l as [|[k0 v0] r IH]; intros k v H; simpl.
+  - constructor; [intros [] | constructor].
+  - inversion H as [|? ? Hn Hr]; subst. destruct (seqb k0 k) eqn:E; simpl.
+    + constructor; assumption.
+    + constructor; [|apply IH; exact Hr].
+      intro Hc. apply om_set_keys in Hc. destruct Hc as [Hc|Hc]; [|contradiction].
+      subst. rewrite seqb_refl in E. discriminate.
+Qed.
+
+Lemma cf_fold_ok : forall ctx pkg refs acc,
+    pending_ok ctx acc -> NoDup (map fst acc) ->
+    pending_ok ctx (fold_left (cf_step ctx pkg) refs acc) /\ NoDup (map fst (fold_left (cf_step ctx pkg) refs acc)).
+Proof.
+  intros ctx pkg refs. induction refs as [|[p0 n0] r IH]; intros acc Hok Hnd; simpl; auto.
+  apply IH; unfold cf_step; simpl; destruct (seqb p0 pkg); auto;
+    destruct (locate_object ctx p0 n0) as [o|] eqn:L; auto.
+  - apply om_set_pending_ok; auto. eapply located_in_all; eauto.
+  - apply om_set_keys_nodup; exact Hnd.
+Qed.
+
+Lemma collect_foreign_ok : forall ctx pkg os,
+    pending_ok ctx (collect_foreign ctx pkg os) /\ NoDup (map fst (collect_foreign ctx pkg os)).
+Proof.
+  intros. rewrite collect_foreign_unfold. apply cf_fold_ok; [intros k o [] | constructor].
+Qed.
+
+Lemma count_objects_length : forall ctx, count_objects ctx = List.length (all_objects ctx).
+Proof.
+  induction ctx as [|s r IH]; [reflexivity|].
+  change (count_objects (s :: r)) with (List.length (s_objects s) + count_objects r).
+  change (all_objects (s :: r)) with (objects_of s ++ all_objects r).
+  rewrite app_length, IH. unfold objects_of. rewrite map_length. reflexivity.
+Qed.
+
+Lemma NoDup_app_p : forall A (a b : list A), NoDup a -> NoDup b -> (forall x, In x a -> In x b -> False) -> NoDup (a ++ b).
+Proof.
+  induction a as [|x r IH]; intros b Ha Hb Hd; simpl; auto.
+  inversion Ha as [|? ? Hn Hr]; subst. constructor.
+  - intro Hc. apply in_app_or in Hc. destruct Hc as [Hc|Hc]; [contradiction | apply (Hd x); [left; reflexivity | exact Hc]].
+  - apply IH; auto. intros y Hy Hyb. apply (Hd y); [right; exact Hy | exact Hyb].
+Qed.
+
+Lemma filter_keys_nodup : forall A (f : string * A -> bool) (l : list (string * A)),
+    NoDup (map fst l) -> NoDup (map fst (filter f l)).
+Proof.
+  induction l as [|x r IH]; intros H; simpl; [constructor|].
+  inversion H as [|? ? Hn Hr]; subst. destruct (f x); simpl; auto.
+  constructor; auto. intro Hc. apply Hn. apply in_map_iff in Hc. destruct Hc as [y [Hy Hin]].
+  apply filter_In in Hin. destruct Hin as [Hin _]. apply in_map_iff. exists y; auto.
+Qed.
+
+Lemma foreign_loop_returns : forall ctx pkg fuel visited defs pending,
+    NoDup visited -> incl visited (map self_key (all_objects ctx)) ->
+    pending_ok ctx pending -> NoDup (map fst pending) ->
+    (List.length (all_objects ctx) - List.length visited) + 2 <= fuel ->
+    exists defs', foreign_loop ctx pkg fuel visited defs pending = Ok defs'.
+Proof.
+  intros ctx pkg fuel. induction fuel as [|f IH]; intros visited defs pending Hnd Hincl Hok Hpnd Hfuel; [lia|].
+  destruct pending as [|pd pr] eqn:EP; [simpl; eauto|].
+  rewrite foreign_loop_step. rewrite <- EP in *.
+  set (todo := not_converted visited pending).
+  destruct (collect_foreign_ok ctx pkg (map snd todo)) as [Hok' Hnd'].
+  destruct todo as [|t0 tr] eqn:ET.
+  - (* nothing left to convert: nothing is collected and the next round ends the loop *)
+    simpl. rewrite app_nil_r. destruct f; simpl; eauto.
+  - rewrite <- ET in *.
+    assert (Htodo : forall ko, In ko todo -> In ko pending /\ ~ In (fst ko) visited).
+    { intros ko Hk. apply not_converted_in; exact Hk. }
+    assert (Hnd2 : NoDup (visited ++ map fst todo)).
+    { apply NoDup_app_p; auto.
+      - apply filter_keys_nodup; exact Hpnd.
+      - intros k Hv Ht. apply in_map_iff in Ht. destruct Ht as [ko [<- Hko]].
+        destruct (Htodo _ Hko) as [_ Hn]. contradiction. }
+    assert (Hincl2 : incl (visited ++ map fst todo) (map self_key (all_objects ctx))).
+    { intros k Hk. apply in_app_or in Hk. destruct Hk as [Hk|Hk]; auto.
+      apply in_map_iff in Hk. destruct Hk as [[k0 o0] [<- Hko]]. simpl.
+      destruct (Htodo _ Hko) as [Hp _]. destruct (Hok _ _ Hp) as [-> Hin]. apply in_map; exact Hin. }
+    assert (Hlen := NoDup_incl_length Hnd2 Hincl2). rewrite map_length in Hlen.
+    assert (Hgrow : List.length visited + 1 <= List.length (visited ++ map fst todo)).
+    { rewrite app_length, map_length, ET. simpl. lia. }
+    apply IH; auto. lia.
+Qed.
+
+Theorem emit_schema_returns : forall ctx s fuel,
+    S (S (count_objects ctx)) <= fuel -> exists jd, emit_schema ctx fuel s = Ok jd.
+Proof.
+  intros ctx s fuel Hf. unfold emit_schema.
+  destruct (collect_foreign_ok ctx (s_pkg s) (map snd (s_objects s))) as [Hok Hnd].
+  destruct (foreign_loop_returns ctx (s_pkg s) fuel [] (set_definitions [] (map snd (s_objects s)))
+                                 (collect_foreign ctx (s_pkg s) (map snd (s_objects s)))) as [defs' E]; auto.
+  - constructor.
+  - intros k [].
+  - rewrite count_objects_length in Hf. simpl. lia.
+  - rewrite E. eauto.
 Qed.
